@@ -30,6 +30,18 @@ let () =
     let doc = unhex (get f "doc") in
     let path = unhex (get f "path") in
     let value = unhex (get f "value") in
-    match set_path_text doc path value with
+    (* the default layout (width, indentation) is a parameter handed over by the harness; members are sorted *)
+    let width = nat_of_int (int_of_string (get_or f "width" "0")) in
+    let indent = unhex (get_or f "indent" "20") in
+    let res =
+      if width = nat_of_int 0 && indent = unhex "20" then set_path_text doc path value
+      else
+        (match parse (nat_of_int (List.length value + 1)) value with
+         | None -> None
+         | Some x ->
+           (match apply_matchers_snapshot width indent true [MAny ([path], x, true)] doc with
+            | Some (r, []) -> Some r
+            | _ -> None)) in
+    match res with
     | Some r -> Printf.printf "jsonset %d err=0 result=%s caller_unchanged=1\n" idx (hex r)
     | None -> Printf.printf "jsonset %d err=1 result=- caller_unchanged=1\n" idx)
